@@ -353,6 +353,7 @@ def r_alias_guard(ctx, repo):
                           'an alias is resolved with self.anchors[anchor] without a dominating `anchor not in self.anchors` '
                           'rejection: an undefined alias raises KeyError instead of ComposerError')
         # the rejecting branches raise ComposerError
+        n_bad_reject = 0
         for (tn, key, lab) in tests:
             for branch in (True, False):
                 succ = [m for (m, l) in cfg.succ[tn] if l == branch]
@@ -364,7 +365,8 @@ def r_alias_guard(ctx, repo):
                         if raise_class_ok(repo, f, x, cerr):
                             rule.ok(f.loc(x.ast), 'rejection raises ComposerError')
                         else:
-                            rule.fail('%s|reject-class|%d' % (f.qualname, x.lineno), f.module.rel, x.lineno, f.qualname,
+                            n_bad_reject += 1
+                            rule.fail('%s|reject-class|%d' % (f.qualname, n_bad_reject), f.module.rel, x.lineno, f.qualname,
                                       norm(x.ast)[:80], 'an anchor/alias violation is rejected with something else than ComposerError')
         # (2) definition path: a kind composer is entered only when its anchor is None or known not to be defined yet
         comps = []
@@ -718,9 +720,9 @@ def r_two_phase(ctx, repo):
                       'above it no longer builds nested self-references (or gets unfilled children)' % g.qualname)
         else:
             rule.ok(g.loc(), '%s passes its deep flag through to %d child constructions' % (g.name, len(kids)))
-    if n < 6:
-        raise AnalysisError('R-TWO-PHASE evaluated %d container constructors, fewer than the 6 confirmed by reading; the rule no '
-                            'longer matches the code it was written for' % n)
+    if n < 4:
+        raise AnalysisError('R-TWO-PHASE evaluated %d container constructors, fewer than half of the 8 confirmed by reading; the '
+                            'rule no longer matches the code it was written for' % n)
     return rule
 
 
